@@ -5,6 +5,7 @@ import (
 	"encoding/hex"
 	"encoding/json"
 	"fmt"
+	"sort"
 	"strings"
 	"time"
 
@@ -116,7 +117,8 @@ func secondMessages() []struct{ name, text string } {
 }
 
 type world struct {
-	ts *seam.TS
+	ts     *seam.TS
+	online []*fake.WS // connections of operators that are logged in already (second pass of the product)
 }
 
 func newWorld() *world {
@@ -127,19 +129,39 @@ func newWorld() *world {
 	return &world{ts: ts}
 }
 
+// newWorldOnline: both operators of the profile are logged in on connections of their
+// own.  Nothing an unauthenticated connection sends may touch those sessions.
+func newWorldOnline() *world {
+	w := newWorld()
+	for i, u := range []string{"op1", "op2"} {
+		ws := fake.NewWS("V" + u)
+		w.ts.T.Clients.Store(fmt.Sprintf("online-%d", i), &server.Client{ClientID: fmt.Sprintf("online-%d", i), Username: u, GlobalIP: "10.1.1.2:5", Connection: ws.Conn, Packager: packager.NewPackager(), Authenticated: true})
+		w.online = append(w.online, ws)
+	}
+	return w
+}
+
 func (w *world) stateKey() string {
 	var ls []string
 	for _, l := range w.ts.T.Listeners {
 		ls = append(ls, l.Name)
 	}
 	auth := 0
+	var sessions []string
 	w.ts.T.Clients.Range(func(k, v any) bool {
 		if v.(*server.Client).Authenticated {
 			auth++
+			sessions = append(sessions, fmt.Sprintf("%v=%s", k, v.(*server.Client).Username))
 		}
 		return true
 	})
-	return fmt.Sprintf("events=%d listeners=%v auth=%d snap=%s", len(w.ts.T.EventsList), ls, auth, w.ts.Snap(true))
+	sort.Strings(sessions)
+	var got []int
+	for _, ws := range w.online {
+		fr, _ := ws.Frames()
+		got = append(got, len(fr))
+	}
+	return fmt.Sprintf("events=%d listeners=%v auth=%d sessions=%v frames-at-online-operators=%v snap=%s", len(w.ts.T.EventsList), ls, auth, sessions, got, w.ts.Snap(true))
 }
 
 func addClient(t *server.Teamserver, id string, ws *fake.WS) *server.Client {
@@ -178,72 +200,81 @@ func runProduct(r *ev.Run) {
 	seconds := secondMessages()
 	r.Bounds["first_messages"] = len(firsts)
 	r.Bounds["second_messages"] = len(seconds)
-	w := newWorld()
-	defer func() { w.ts.Close() }()
-	base := w.stateKey()
-	for fi, fm := range firsts {
-		for _, sm := range seconds {
-			if fm.accepted && sm.name != "nothing" {
-				continue // after a valid login anything may happen: C11/C16 cover it
-			}
-			ws := fake.NewWS("X")
-			switch fm.kind {
-			case "text":
-				ws.SendText(fm.text)
-			case "binary":
-				ws.SendBinary([]byte(fm.text))
-			case "close":
-				ws.SendClose()
-			}
-			if sm.text != "" {
-				ws.SendText(sm.text)
-			}
-			ws.Raw.ClosePeer()
-			id := fmt.Sprintf("cl%04d", fi)
-			addClient(w.ts.T, id, ws)
-			var pn any
-			var frame string
-			func() {
-				defer func() {
-					if p := recover(); p != nil {
-						pn = p
-						frame = seam.StackTop()
-					}
-				}()
-				w.ts.T.VerifHandleRequest(id)
-			}()
-			r.Eval(1)
-			detail := map[string]any{"first": fm.desc, "second": sm.name}
-			dirty := false
-			if pn != nil {
-				r.Violate("preauth-panic/"+frame+"/"+ev.Normalize(fmt.Sprint(pn)), fmt.Sprintf("first message %s crashes the connection handler (the process, in the running server): %v", fm.desc, pn), detail)
-				dirty = true
-			}
-			n, onlyErr, desc := frameSummary(ws)
-			if fm.accepted {
-				r.Outcome("accepted")
-				dirty = true
-			} else {
-				if n > 1 || !onlyErr {
-					r.Violate("preauth-frames", fmt.Sprintf("unauthenticated connection received frames %v (allowed: at most one InitConnection/Error)", desc), detail)
+	for _, online := range []bool{false, true} {
+		mk := newWorld
+		if online {
+			mk = newWorldOnline
+		}
+		w := mk()
+		base := w.stateKey()
+		for fi, fm := range firsts {
+			for _, sm := range seconds {
+				if online && sm.name != "nothing" && sm.name != "chat" {
+					continue // second pass (operators online): the first message and one follow-up
 				}
-				after := w.stateKey()
-				if after != base && pn == nil {
-					r.Violate("preauth-state/"+sm.name, fmt.Sprintf("rejected handshake followed by %q changed the teamserver state", sm.name), map[string]any{"first": fm.desc, "second": sm.name, "before": base, "after": after})
+				if fm.accepted && sm.name != "nothing" {
+					continue // after a valid login anything may happen: C11/C16 cover it
+				}
+				ws := fake.NewWS("X")
+				switch fm.kind {
+				case "text":
+					ws.SendText(fm.text)
+				case "binary":
+					ws.SendBinary([]byte(fm.text))
+				case "close":
+					ws.SendClose()
+				}
+				if sm.text != "" {
+					ws.SendText(sm.text)
+				}
+				ws.Raw.ClosePeer()
+				id := fmt.Sprintf("cl%04d", fi)
+				addClient(w.ts.T, id, ws)
+				var pn any
+				var frame string
+				func() {
+					defer func() {
+						if p := recover(); p != nil {
+							pn = p
+							frame = seam.StackTop()
+						}
+					}()
+					w.ts.T.VerifHandleRequest(id)
+				}()
+				r.Eval(1)
+				detail := map[string]any{"first": fm.desc, "second": sm.name}
+				dirty := false
+				if pn != nil {
+					r.Violate("preauth-panic/"+frame+"/"+ev.Normalize(fmt.Sprint(pn)), fmt.Sprintf("first message %s crashes the connection handler (the process, in the running server): %v", fm.desc, pn), detail)
 					dirty = true
 				}
-				r.Outcome(fmt.Sprintf("rejected/frames=%d", n))
-			}
-			if r.WantSample() && fi%97 == 5 {
-				r.Sample(map[string]any{"first": fm.desc, "second": sm.name, "accepted": fm.accepted, "frames": desc})
-			}
-			w.ts.T.Clients.Delete(id)
-			if dirty {
-				w.ts.Close()
-				w = newWorld()
-				base = w.stateKey()
+				n, onlyErr, desc := frameSummary(ws)
+				if fm.accepted {
+					r.Outcome("accepted")
+					dirty = true
+				} else {
+					if n > 1 || !onlyErr {
+						r.Violate("preauth-frames", fmt.Sprintf("unauthenticated connection received frames %v (allowed: at most one InitConnection/Error)", desc), detail)
+					}
+					after := w.stateKey()
+					if after != base && pn == nil {
+						r.Violate("preauth-state/"+sm.name+map[bool]string{false: "", true: "/operators-online"}[online], fmt.Sprintf("rejected handshake followed by %q changed the teamserver state", sm.name), map[string]any{"first": fm.desc, "second": sm.name, "before": base, "after": after})
+						dirty = true
+					}
+					r.Outcome(fmt.Sprintf("rejected/frames=%d", n))
+				}
+				if r.WantSample() && fi%97 == 5 {
+					r.Sample(map[string]any{"first": fm.desc, "second": sm.name, "accepted": fm.accepted, "frames": desc})
+				}
+				w.ts.T.Clients.Delete(id)
+				if dirty {
+					w.ts.Close()
+					w = mk()
+					base = w.stateKey()
+				}
 			}
 		}
+		w.ts.Close()
 	}
 }
 
